@@ -123,7 +123,7 @@ type machine struct {
 var providers = []int{0, 1, 2}
 
 // restartOneIn: a restart is drawn with probability 1/restartOneIn per step.
-const restartOneIn = 40
+const restartOneIn = 45
 
 func newMachine() pbt.Machine[op] {
 	c := gen.Env().NewCase()
@@ -209,7 +209,7 @@ func (m *machine) activeRequests() []liveReq {
 func (m *machine) Next(t *rapid.T) op {
 	k := rapid.IntRange(0, 99).Draw(t, "kind")
 	reqs := m.activeRequests()
-	if len(m.feeds) > 0 && rapid.IntRange(0, restartOneIn-1).Draw(t, "restart") == 0 {
+	if len(m.feeds) > 0 && rapid.IntRange(0, restartOneIn-1).Draw(t, "restart") == restartOneIn/2+7 {
 		return op{Kind: "restart", Dt: gen.Dt(t, "dt")}
 	}
 	if len(m.pendingStart) > 0 && rapid.IntRange(0, 9).Draw(t, "startagain") < 6 {
